@@ -477,9 +477,7 @@ func (s *setSys) check(o vm.HashSet, m model, last string) (vs []viol, expand bo
 			add("iteration["+strings.TrimSuffix(it.name, "-after-reset")+"] "+res, "via "+it.name)
 		}
 	}
-	if len(vs) > 0 {
-		return vs, false
-	}
+	// contains and iteration are observers: a wrong answer is reported, the table itself is sound and is explored further
 	// derived objects
 	all := append([]*setKind{k}, k.peers...)
 	for _, pk := range all {
